@@ -1,7 +1,7 @@
 (* C14 - the CriticMarkup preview is faithful to the text and to the edits.  ONLY statements + Print Assumptions. *)
 From Coq Require Import List NArith Bool Arith.
 Import ListNotations.
-From Adeu Require Import Str ListX Markup MarkupProofs.
+From Adeu Require Import Str ListX Markup MarkupProofs WeaveProofs.
 
 (* marker hoisting never loses or invents characters of the matched text: the hoisted prefix, the clean target and the
    hoisted suffix concatenate to the matched text, for every text and every \w predicate *)
@@ -21,3 +21,27 @@ Theorem C14_selected : forall text es,
 Proof. intros text es. destruct (select_spec text es 0 []) as [A B]. split; [|exact B].
   eapply Forall_impl; [|exact A]. intros m (H0 & _ & _ & H3 & H4). rewrite Nat.sub_0_r in H3. auto. Qed.
 Print Assumptions C14_selected.
+
+(* THE weave (reject view, placement, order) - for every text, every edit list and every fuzzy-stage answer that is a span of
+   the text (what a regex match is; checked on every call by the harness): the preview is the text's own pieces, in order, with
+   the block of each selected edit standing exactly where its matched range was; reading every block as the text it matched gives
+   back the text character for character; the blocks are exactly the selected edits, in ascending position *)
+Theorem C14_weave : forall isword show_nat (text : str) es wi hl, es <> [] -> Forall (fuzzy_ok text) es ->
+  let sel := sort_desc (select text es 0 []) in
+  let blk := fun m : nat * nat * medit * nat =>
+    build isword show_nat (slice text (st m) (en m)) (me_new (snd (fst m))) (me_comment (snd (fst m))) (snd m) wi hl in
+  let segs := segs_desc text sel (length text) [] in
+  render isword show_nat text es wi hl = concat (map (seg_str blk) segs)
+  /\ concat (map (seg_matched text) segs) = text
+  /\ seg_blocks segs = rev sel.
+Proof. exact render_weave. Qed.
+Print Assumptions C14_weave.
+(* one block (suggestion mode): hoisted prefix, {--clean target--}{++clean new++}, hoisted suffix, metadata; read as rejected it
+   is the matched text, read as accepted it is the new text - as given, or (when the new text did not repeat them) inside the
+   matched text's own formatting markers *)
+Theorem C14_block_views : forall isword show_nat target new cm idx wi,
+  let '(pre, ct, suf) := strip_balanced isword target in
+  exists cn meta, build isword show_nat target new cm idx wi false = pre ++ change ct cn ++ suf ++ meta
+                  /\ pre ++ ct ++ suf = target /\ (cn = new \/ pre ++ cn ++ suf = new).
+Proof. exact build_views. Qed.
+Print Assumptions C14_block_views.
